@@ -5,7 +5,11 @@ set -e
 REPO="$1"; OUT="$2"; TGT="$3"
 HERE="$(cd "$(dirname "$0")" && pwd)"
 DRV="$HERE/sfsmir/target/release/sfsmir"
-[ -x "$DRV" ] || { echo "driver not built: $DRV (run setup)"; exit 2; }
+if [ ! -x "$DRV" ] || [ "$HERE/sfsmir/src/main.rs" -nt "$DRV" ]; then
+  # build the driver on first use / after an edit (offline, nightly, no dependencies)
+  (cd "$HERE/sfsmir" && CARGO_NET_OFFLINE=true cargo build --release --offline >/dev/null 2>"$HERE/sfsmir/build.stderr") || { tail -20 "$HERE/sfsmir/build.stderr"; exit 2; }
+fi
+[ -x "$DRV" ] || { echo "driver not built: $DRV (run engine/setup.sh)"; exit 2; }
 SYSROOT="$(rustc +nightly --print sysroot)"
 mkdir -p "$OUT" "$TGT"
 # cargo's freshness cache would skip the wrapper for workspace members: drop their fingerprints
